@@ -745,6 +745,9 @@ func (ft *fnTrans) ret(x *ssa.Return, h *Heap, reach string) {
 			}
 		}
 	}
+	if env.old != nil {
+		env.old.results = env.results
+	}
 	site := ""
 	nret := 0
 	for _, b := range ft.fn.Blocks {
